@@ -26,6 +26,7 @@ type Result struct {
 	Replies  []byte // bytes written by ReadData's control handler
 	ContHdrs int    // OnContinuation invocations
 	Calls    int    // successful API-level deliveries
+	Retries  int    // calls repeated after a transient transport error
 	Reader   *wsutil.Reader
 	// HandlerShort: a control handler callback got fewer bytes than announced and saw a
 	// clean EOF (C16).
@@ -122,6 +123,11 @@ func readerLoop(buf, lazy int) Driver {
 			b := make([]byte, buf)
 			for it := 0; it < maxIter; it++ {
 				h, err := rd.NextFrame()
+				if _, transient := err.(env.TempErr); transient {
+					// a transport error that calls itself temporary: the application tries again
+					res.Retries++
+					continue
+				}
 				if err != nil {
 					res.Err = err
 					return
@@ -135,6 +141,10 @@ func readerLoop(buf, lazy int) Driver {
 					n, err := rd.Read(b)
 					p = append(p, b[:n]...)
 					res.Partial = p
+					if _, transient := err.(env.TempErr); transient {
+						res.Retries++
+						continue
+					}
 					if err == io.EOF {
 						break
 					}
